@@ -118,6 +118,10 @@ func errsTexts(mk string) []string {
 		"ошибка ✓ 文件",
 		"{" + rest + "}" + head + "{",
 		strings.Repeat("a long text: with colons, {\"json\": true} and "+rest+"; ", 60),
+		// the complete text of somebody else's status error, quoted in front of the wrapped error
+		"rpc error: code = NotFound desc = upstream: no such thing",
+		"rpc error: code = AlreadyExists desc = upstream: taken",
+		"rpc error: code = Internal desc = upstream: broke",
 	}
 	var res []string
 	seen := map[string]bool{}
